@@ -43,12 +43,14 @@ def _params():
     out = []
     for ck in COUNTS:
         for nsub in (1, 2):
-            for njobs in ((5, 6) if ck in ("drop", "raise_after_change") else (3, 4)):
+            for njobs in ((5, 6) if ck in ("drop", "raise_after_change") else ((3, 4, 6) if ck == "2" else (3, 4))):
                 for cancel in (False, True):
                     for block in (False, True):
                         if block and ck in ("0",):
                             continue        # blocks for ever by specification
-                        if block and (cancel or nsub == 2 and njobs == 4):
+                        if block and (cancel or nsub == 2 and njobs >= 4):
+                            continue
+                        if njobs == 6 and ck == "2" and not block:
                             continue
                         if ck in ("step", "step_none", "raise", "drop", "raise_after_change") and (nsub == 2 or cancel):
                             continue
@@ -249,15 +251,71 @@ harness("c07.throttle.lines", prop="C07", traced=("throttle",), horizon=120,
         params=[q for q in _params() if q["njobs"] in (3, 5)])(body)
 oracle("c07.throttle.lines")(check)
 
+
+
+def body_wake(mc, p):
+    """Blocking mode, starting from a non-initial state: two jobs in flight, two queued, then a
+    submitter that blocks while two delegate completions land at the same instant.  The set-up
+    (and everything after the instant) runs on the default schedule; only the window is explored."""
+    base = ManualExecutor(mc, mode="hold")
+    ex = ThrottleExecutor(base, COUNTS[p["count"]], block=True)
+    fs = {}
+
+    def fn(tag):
+        return tag
+    tags = ["j%d" % i for i in range(p["njobs"])]
+    mc.forced(True)
+    for tag in tags[:4]:
+        fs[tag] = mc.call("submit:" + tag, ex.submit, fn, tag)
+    mc.wait_until(lambda: len(base.items) == 2)
+    mc.sleep(0.5)
+    mc.forced(False)
+
+    def sub():
+        for tag in tags[4:]:
+            fs[tag] = mc.call("submit:" + tag, ex.submit, fn, tag)
+    mc.spawn(sub, "sub0")
+
+    def comp(i):
+        def run():
+            mc.sleep(0.5)
+            base.complete(i, "r%d" % i)
+        return run
+    mc.spawn(comp(0), "comp0", client=False)
+    mc.spawn(comp(1), "comp1", client=False)
+    mc.sleep(1.0)
+    mc.forced(True)
+    i = 2
+    while i < len(tags) and mc.clock < 90:
+        mc.sleep(1.0)
+        if i < len(base.items):
+            base.complete(i, "r%d" % i)
+            i += 1
+    mc.sleep(95 - mc.clock)
+    mc.observe(final=tuple((t, snapshot(fs[t])) if t in fs else (t, ("missing", None)) for t in tags),
+               queue=len(ex._to_submit) if hasattr(ex, "_to_submit") else -1)
+    ex.shutdown(wait=False)
+
+
+WAKE = [dict(count="2", nsub=1, njobs=n, cancel=False, block=True) for n in (5, 6, 7)]
+harness("c07.throttle.wake", prop="C07", traced=(), horizon=120, params=WAKE)(body_wake)
+oracle("c07.throttle.wake")(check)
+harness("c07.throttle.wake.lines", prop="C07", traced=("throttle",), horizon=120, params=WAKE)(body_wake)
+oracle("c07.throttle.wake.lines")(check)
+
 CORE = lambda p: (p["count"] in ("1", "2") and p["njobs"] == 3 or p["count"] in ("drop", "raise_after_change") and p["njobs"] == 5) and not p["block"]
 
 PLAN = {
     "quick": [dict(harness="c07.throttle", bound=1),
               dict(harness="c07.throttle", bound=2, select=CORE),
-              dict(harness="c07.throttle.lines", bound=1, select=CORE)],
+              dict(harness="c07.throttle.lines", bound=1, select=CORE),
+              dict(harness="c07.throttle.wake", bound=2),
+              dict(harness="c07.throttle.wake.lines", bound=1)],
     "thorough": [dict(harness="c07.throttle", bound=2),
                  dict(harness="c07.throttle", bound=3, select=CORE),
                  dict(harness="c07.throttle.lines", bound=1),
                  dict(harness="c07.throttle.lines", bound=2, select=CORE),
-                 dict(harness="c07.throttle", bound=1, jump=True, select=lambda p: not p["block"])],
+                 dict(harness="c07.throttle", bound=1, jump=True, select=lambda p: not p["block"]),
+                 dict(harness="c07.throttle.wake", bound=3),
+                 dict(harness="c07.throttle.wake.lines", bound=2)],
 }
